@@ -256,6 +256,23 @@ def stress(run, tsc):
                         conf = dict(n1d=n1d, nthread=nthread, coord=coord, npartition=None, npartition_used=None)
                         run.violation('compiled-parallel-differs-from-serial', dict(n1d=n1d, nthread=nthread, coord=coord, rep=r, cells_differing=nd, mass_parallel=float(out.sum()), mass_serial=float(ref.sum())))
                         break
+    # the same position / weight array *objects* reused for a second deposit after being overwritten in place
+    for n1d, nthread in confs[:3]:
+        box = float(n1d)
+        buf = lattice_particles(rng, n1d, 4, 0, box, N)
+        wbuf = rng.integers(1, 4, N).astype(np.float64)
+        with warnings.catch_warnings():
+            warnings.simplefilter('ignore')
+            tsc.tsc_parallel(buf, np.zeros((n1d, n1d, n1d), dtype=np.float64), box, weights=wbuf, nthread=nthread, wrap=False)
+            buf[:] = lattice_particles(rng, n1d, 4, 0, box, N)
+            wbuf[:] = rng.integers(1, 4, N)
+            ref = tsc.tsc_parallel(buf.copy(), np.zeros((n1d, n1d, n1d), dtype=np.float64), box, weights=wbuf.copy(), nthread=1, wrap=False)
+            out = tsc.tsc_parallel(buf, np.zeros((n1d, n1d, n1d), dtype=np.float64), box, weights=wbuf, nthread=nthread, wrap=False)
+        run.ev()
+        run.count('stress_runs')
+        run.nt(('stress-reuse', n1d, nthread))
+        if not np.array_equal(out, ref):
+            run.violation('second-call-with-same-arrays-differs', dict(n1d=n1d, nthread=nthread, cells_differing=int((out != ref).sum()), mass_parallel=float(out.sum()), mass_serial=float(ref.sum())))
     # nthread=1 with stripe counts that are only accepted because the deposit is serial
     for n1d, npart in ((32, 16), (32, 3), (16, 8), (24, 5)):
         box = float(n1d)
